@@ -327,7 +327,7 @@ def ev_scores(case):
             skipped["reference covariance not positive definite"] = skipped.get("reference covariance not positive definite", 0) + 1
             continue
         alpha = ref.alpha(sc)
-        P = G.Pert(G.tofloat(sc["C"]), G.tofloat(sc["r"]), G.tofloat(alpha))
+        P = G.Pert(G.tofloat(sc["C"]), G.tofloat(sc["r"]), G.tofloat(alpha), rabs=ref.residual_rounding_scale(theta))
         if not P.ok or P.cond > COND_MAX:
             skipped["cond(K+S) > 1e10"] = skipped.get("cond(K+S) > 1e10", 0) + 1
             continue
@@ -488,7 +488,7 @@ def score_margin_tolerance(case, gp, theta, centre):
             sc = ref.scores(list(th), loo=bool(case["cross_val"]))
         except G.NotPD:
             return float("inf"), None
-        P = G.Pert(G.tofloat(sc["C"]), G.tofloat(sc["r"]), G.tofloat(ref.alpha(sc)))
+        P = G.Pert(G.tofloat(sc["C"]), G.tofloat(sc["r"]), G.tofloat(ref.alpha(sc)), rabs=ref.residual_rounding_scale(list(th)))
         if not P.ok:
             return float("inf"), None
         if case["cross_val"]:
